@@ -1,3 +1,4 @@
+import SieveModel.Generated.MsConsts
 import SieveModel.Lemmas.ReplyLine
 import SieveModel.Lemmas.Listing
 /-!
@@ -76,5 +77,8 @@ theorem script_lines_come_back_exactly_without_final_newline (c : Client) (name 
             literalS (joinCRLF ls ++ last) ++ 13 :: 10 :: (sb "OK" ++ 13 :: 10 :: rest)) :
     (Client.getscript c name).1 = .ok (some (Client.joinNl (ls ++ [last]))) ∧ pending (Client.getscript c name).2.r = rest :=
   getscript_returns_the_lines_open c name ls last rest ha hc hlast hb hv hp
+
+/-- the regular expressions `sievelib/managesieve.py` uses now are the ones the model implements -/
+theorem client_patterns_are_the_modelled_ones : Generated.clientPatterns = Client.patterns := by decide
 
 end C17
